@@ -92,6 +92,18 @@ def plan(tier):
     bounds["sstable-index"] = {"key_universe": uni, "index_interval": ivs,
                                "tables": "every subset of the universe", "reads": "get of every key, every range scan"}
 
+    # falsy payloads (0, "", False, (), 0.0, [], {}) through every write/read API of every engine
+    fkeys = ("a", "b")
+    fdepth = 5 if quick else 6
+    fcfgs = [("lsm", t, m, lv) for t in base_tags for (m, lv) in ((1, 2), (2, 3))] + \
+            [("btree", 3), ("btree", 4), ("kv",)]
+    for cfg in fcfgs:
+        jobs.append(("seq-falsy", "seq", (cfg, fkeys, fdepth, 400000, True)))
+    bounds["seq-falsy"] = {"keys": fkeys, "depth(writes)": fdepth, "engines": fcfgs,
+                           "write_alphabet": "put_sync/put with a fresh truthy payload, put_sync/put with a falsy "
+                                             "payload (cycling 0, '', False, (), 0.0, [], {}), delete",
+                           "reads": "full image in every state (get_sync, get, scans / contains, keys)"}
+
     # ---- 2. overlap --------------------------------------------------------
     keys2 = ("a", "b")
     cap = 400_000
@@ -158,6 +170,23 @@ def plan(tier):
     for (cfg, wal, pre) in o3:
         for ch in range(nch):
             jobs.append(("overlap3", "ov", (cfg, wal, pre, keys2, 3, 1, 3, g3, ch, nch)))
+    # write bursts: three writes in flight in different memtables while a get/scan runs
+    if quick:
+        ob = [(("lsm", t, 2, 2), None, p) for t in base_tags for p in [(PUT_A,), ()]]
+        ob += [(("lsm", base_tags[0], 1, 2), None, (PUT_A,))]
+        gb, full = 40_000, 0
+    else:
+        ob = [(("lsm", t, m, 2), w, p) for t in base_tags for m in (1, 2, 3) for w in (None, "every")
+              for p in [(PUT_A,), (), (PUT_A, PUT_B)]]
+        gb, full = 50_000, 1
+    for (cfg, wal, pre) in ob:
+        for ch in range(1 if quick else 4):
+            jobs.append(("overlap-burst", "ov", (cfg, wal, pre, keys2, "burst", 0, full, gb, ch, 1 if quick else 4)))
+    bounds["overlap-burst"] = {"clients": 3, "programs": "clients 1,2: one put" + ("/delete" if full else "")
+                               + " each; client 3: put/delete then get(a)|get(b)|scan", "keys": keys2,
+                               "sub_spaces": ob,
+                               "offsets": f"full product of 0..{gb} ns step {OV.GRID_NS} for clients 2 and 3",
+                               "latencies_s": OV.LAT}
     bounds["overlap3"] = {"clients": 3, "ops_per_client": 1, "keys": keys2, "sub_spaces": o3,
                           "offsets": f"full product of 0..{g3} ns step {OV.GRID_NS} for clients 2 and 3"}
 
@@ -172,6 +201,7 @@ def plan(tier):
                 jobs.append(("txn-2x2", "tx", (store, level, sets2[ch::4])))
     bounds["txn-2x2"] = {"transactions": 2, "ops_per_txn": "<=2 of r/w on x,y", "stores": dict(TX.STORES),
                          "levels": lv, "interleavings": "all merges of begin/ops/commit",
+                         "begin": "T0 passes its level to begin(), T1 relies on the manager default (same level)",
                          "program_sets": "unordered (transaction identities are interchangeable)"}
     p1 = TX.txn_programs(1)
     sets3 = list(itertools.combinations_with_replacement(p1, 3))
@@ -183,6 +213,19 @@ def plan(tier):
                 jobs.append(("txn-3x1", "tx", (store, level, sets3[ch::10])))
     bounds["txn-3x1"] = {"transactions": 3, "ops_per_txn": 1, "stores": stores3, "levels": levels3,
                          "interleavings": "all merges of begin/op/commit (1680 per program set)"}
+    # isolation level given per transaction (begin(isolation=L) / begin_sync(isolation=L)) on a manager whose
+    # DEFAULT level is a different one; every transaction is judged by the level it was begun with
+    ov_levels = [f"{d}>{lvl}" for lvl in lv for d in lv if d != lvl]
+    ov_stores = ["kv"] if quick else list(TX.STORES)
+    for store in ov_stores:
+        for level in ov_levels:
+            for ch in range(2):
+                jobs.append(("txn-override", "tx", (store, level, sets2[ch::2])))
+    bounds["txn-override"] = {"transactions": 2, "ops_per_txn": "<=2", "stores": ov_stores,
+                              "manager_default>per_txn_level": ov_levels,
+                              "begin": "T0 via begin(isolation=L), T1 via begin_sync(isolation=L)",
+                              "interleavings": "all merges of begin/ops/commit"}
+
     # one reader with two reads + two writers: the reader's snapshot must survive SEVERAL later commits
     # on the same key (a key overwritten twice after the snapshot has an intermediate before-image)
     readers = list(itertools.product([("r", "x"), ("r", "y")], repeat=2))
